@@ -49,6 +49,10 @@ SNIPPETS = [
     'type T { #[address(9223372036854775807)] a: u64 }', 'type T { a: *mut Array<SharedPtr<Item>>>, b: Foo<Bar<>>>> }',
     'type T { a: Foo>, b: Foo<<>, c: Foo<, d: <> }', 'type T { a: Map<K, V>, b: Vec<> } impl T { #[address(1)] fn f(&self, a: Foo>>) -> Bar<; }',
     'extern type Shared<T>>; pub extern g: Shared>;',
+    'type Root { a: u32 } type L { #[base] r#type: Root } type R { #[base] r#type: Root } type D { #[base] left: L, #[base] r#fn: R }',
+    'type Root { a: u32 } type L { #[base] r#mod: Root, x: u32 } type R { #[base] r#mod: Root } type M { #[base] r#loop: L } type D { #[base] a: M, #[base] b: R }',
+    'type Player { _: unknown<16>, #[address(8)] pub health: u32 }', 'type P { _: u64, _: unknown<4>, #[address(2)] a: u8 } type Q { #[address(4)] a: u8, #[address(2)] b: u8 }',
+    '#[size(4)] type S { _: unknown<8> } #[size(2)] type S2 { _: [u16; 4], _: u8 }',
     'type T { vftable { fn f(&self); }, a: Missing }', 'type A { vftable { fn f(&self); }, b: B } type B { a: A, p: *const AVftable }',
     'type A { vftable { fn f(&self); }, #[base] b: B } type B { vftable { fn f(&self); }, #[base] a: A }',
     '#[size(4), align(4)] pub type Header { pub id: u32, pub end: void }', 'type V { a: void, b: u8 } type W { v: V, a: [void; 4], p: *const void }',
